@@ -1,0 +1,71 @@
+//go:build verif
+
+package reassembly
+
+import "time"
+
+// Hooks for runtime verification (build tag "verif"). They only read state,
+// under the locks the package itself uses, and let a controller suspend
+// goroutines at points where no lock is held.
+
+var verifYieldFn func(point string)
+
+// SetVerifYield installs the callback invoked at every yield point. It must
+// be set before the goroutines that use the package are started.
+func SetVerifYield(f func(point string)) { verifYieldFn = f }
+
+func verifYield(point string) {
+	if f := verifYieldFn; f != nil {
+		f(point)
+	}
+}
+
+// VerifPagesUsed returns the number of pages the assembler's page cache
+// counts as in use.
+func VerifPagesUsed(a *Assembler) int { return a.pc.used }
+
+// VerifHalf describes one direction of a live connection.
+type VerifHalf struct {
+	Closed       bool
+	QueuedPages  int // pages in the out-of-order list (first..last)
+	SavedPages   int // pages kept on request of the stream
+	OldestQueued time.Time
+	FirstQueued  time.Time // seen time of the first (lowest sequence) queued page
+	PagesCounter int       // the package's own half.pages counter
+}
+
+// VerifConn describes one entry of the stream pool.
+type VerifConn struct {
+	Key      string
+	C2S, S2C VerifHalf
+	Stream   Stream
+}
+
+func verifHalf(h *halfconnection) VerifHalf {
+	v := VerifHalf{Closed: h.closed, PagesCounter: h.pages}
+	if h.first != nil {
+		v.FirstQueued = h.first.seen
+	}
+	for p := h.first; p != nil; p = p.next {
+		if v.QueuedPages == 0 || p.seen.Before(v.OldestQueued) {
+			v.OldestQueued = p.seen
+		}
+		v.QueuedPages++
+	}
+	for p := h.saved; p != nil; p = p.next {
+		v.SavedPages++
+	}
+	return v
+}
+
+// VerifPoolSnapshot lists the connections currently in the pool. Each entry
+// is read under that connection's own mutex.
+func VerifPoolSnapshot(p *StreamPool) []VerifConn {
+	var out []VerifConn
+	for _, c := range p.connections() {
+		c.mu.Lock()
+		out = append(out, VerifConn{Key: c.key.String(), C2S: verifHalf(&c.c2s), S2C: verifHalf(&c.s2c), Stream: c.c2s.stream})
+		c.mu.Unlock()
+	}
+	return out
+}
